@@ -6,7 +6,7 @@ From Clemens Require Import Rules.Abs Rules.Fide.
 From Clemens.C01Att Require Import FideFacts.
 From Clemens.C03Recon Require Import FideText Recon.
 From Clemens.EngineE2E Require Import EngBase EngState EngExamples.
-From WipGame Require Import GameInv GameAfter GameWhole GameExamples.
+From Clemens.GameThm Require Import GameInv GameAfter GameWhole GameExamples.
 Import ListNotations.
 Open Scope list_scope.
 Open Scope string_scope.
